@@ -3,7 +3,7 @@ import json, os
 import vlib
 from props import uni
 
-EXPORTABLE = [0, 1, 2, 3, 4, 5, 6, 7, 8, 9, 10, 11, 12, 13, 17, 18, 19, 20, 21, 22, 23, 24, 39, 40]
+EXPORTABLE = [0, 1, 2, 3, 4, 5, 6, 7, 8, 9, 10, 11, 12, 13, 17, 18, 19, 20, 21, 22, 23, 24, 39, 40, 41, 42, 43, 44, 45, 46, 47, 48, 49, 50, 51, 52]
 ENVS = [None, "rel/out", "$ROOT/abs/out", "./bindings/../bindings/."]
 
 
@@ -63,7 +63,7 @@ def run(ctx):
         return ctx.finish(proof=proof)
     root = os.path.join(vlib.SCRATCH, "u6")
     total = groups = 0
-    rootsets = [[7], [2], [4, 5], [23, 3], [10, 11], [21, 22], [17, 24], [6, 9, 5], [18, 19, 20], [4, 23, 5, 3], [39, 3], [40, 5]]
+    rootsets = [[7], [2], [4, 5], [23, 3], [10, 11], [21, 22], [17, 24], [6, 9, 5], [18, 19, 20], [4, 23, 5, 3], [39, 3], [40, 5], [41, 45], [45, 42, 43], [49], [47, 46], [50, 51], [52]]
     # one type of every shared file alone (so that the other types of that file are "outside the export set")
     types0, _ = uni.describe(binary, root, None)
     byp = {}
